@@ -75,6 +75,10 @@ def clone_value(v):
         return ('map', v[1].clone())
     if t == 'vec':
         return ('vec', [clone_value(x) for x in v[1]])
+    if t == 'arr':
+        return ('arr', [Cell(clone_value(c.v)) for c in v[1]])
+    if t == 'set':
+        return ('set', set(v[1]))
     return v
 
 
@@ -169,6 +173,11 @@ class Interp:
                 c = fields[e['f']]
             elif isinstance(e, dict) and 'd' in e:
                 pass          # downcast: same cell
+            elif isinstance(e, dict) and 'i' in e:
+                iv = frame[e['i']].v
+                if v is None or v[0] != 'arr' or iv is None or iv[0] != 'int' or iv[1] is None or not (0 <= iv[1] < len(v[1])):
+                    raise Unmodelled('indexing %r with %r' % (v[0] if v else None, iv))
+                c = v[1][iv[1]]
             else:
                 raise Unmodelled('projection %r' % (e,))
         return c
@@ -192,6 +201,8 @@ class Interp:
                 return ('fnptr', strip_generics(c['fn']))
             if 'str' in c:
                 return ('opaque', 'str')
+            if c.get('uneval'):
+                return ('const', strip_generics(c['uneval']), ty)
             return ('opaque', 'const:' + ty)
         cell = self.place_cell(frame, op['pl'])
         v = cell.v
@@ -235,7 +246,7 @@ class Interp:
             if a == 'closure':
                 return ('closure', rv['def'], ops)
             if a == 'array':
-                return ('vec', [c.v for c in ops])
+                return ('arr', ops)
             raise Unmodelled('aggregate %s' % a)
         if k == 'bin':
             a, b = self.operand(frame, rv['a']), self.operand(frame, rv['b'])
@@ -243,7 +254,7 @@ class Interp:
         if k == 'un':
             a = self.operand(frame, rv['a'])
             if rv['op'] == 'Not' and a[0] == 'bool':
-                return mk_bool(not a[1])
+                return ('bool', None) if a[1] is None else mk_bool(not a[1])
             if a[0] == 'int':
                 return ('int', None)
             raise Unmodelled('unary %s on %r' % (rv['op'], a))
@@ -260,7 +271,7 @@ class Interp:
         if a[0] == 'int' and b[0] == 'int':
             if a[1] is None or b[1] is None:
                 if op in ('Lt', 'Le', 'Gt', 'Ge', 'Eq', 'Ne'):
-                    return mk_bool(self.choose('int-compare'))
+                    return ('bool', None)        # unknown; only resolved (by enumeration) if control flow depends on it
                 return ('int', None)
             x, y = a[1], b[1]
             if op in ('Lt', 'Le', 'Gt', 'Ge', 'Eq', 'Ne'):
@@ -312,6 +323,8 @@ class Interp:
             elif k == 'switch':
                 v = self.operand(frame, t['discr'])
                 if v[0] == 'bool':
+                    if v[1] is None:
+                        v = mk_bool(self.choose('int-compare'))
                     n = 1 if v[1] else 0
                 elif v[0] == 'int' and v[1] is not None:
                     n = v[1]
@@ -480,6 +493,31 @@ class Interp:
         if name.startswith('alloc::collections::btree::map::') or name.startswith('std::collections::hash::map::') \
                 or name.startswith('hashbrown::'):
             return self.model_map(name, seg, A, depth)
+        if name.startswith('alloc::collections::btree::set::BTreeSet::') or name.startswith('std::collections::hash::set::HashSet::'):
+            if seg in ('new', 'default', 'with_capacity'):
+                return ('set', set())
+            st = self.deref_all(A[0])
+            if st[0] != 'set':
+                raise Unmodelled('%s on %s' % (name, st[0]))
+            if seg == 'insert':
+                k = self.key_of(A[1])
+                had = k in st[1]
+                st[1].add(k)
+                return mk_bool(not had)
+            if seg == 'contains':
+                return mk_bool(self.key_of(A[1]) in st[1])
+            if seg == 'remove':
+                k = self.key_of(A[1])
+                had = k in st[1]
+                st[1].discard(k)
+                return mk_bool(had)
+            if seg in ('iter', 'into_iter'):
+                return ('iter', self.as_iter(A[0]))
+            if seg == 'len':
+                return ('int', len(st[1]))
+            if seg == 'is_empty':
+                return mk_bool(not st[1])
+            raise Unmodelled('%s is not modelled' % name)
         # --- Vec / slices / iterators ----------------------------------------------------------------------------
         r = self.model_seq(name, seg, A, depth)
         if r is not NotImplemented:
@@ -746,6 +784,10 @@ class Interp:
             return IterObj(its)
         if d[0] == 'adt' and d[1] == 'core::option::Option':
             return IterObj([d[3][0].v] if d[2] == 1 else [])
+        if d[0] == 'arr':
+            return IterObj([('ref', c) for c in d[1]] if is_ref else [c.v for c in d[1]])
+        if d[0] == 'set':
+            return IterObj([('ref', Cell(('key', k))) for k in sorted(d[1])] if is_ref else [('key', k) for k in sorted(d[1])])
         raise Unmodelled('iteration over %s' % d[0])
 
     def iter_next(self, it, depth):
@@ -860,6 +902,12 @@ class Interp:
             if seg == 'from_iter':
                 return self.collect(self.as_iter(A[0]), None, depth)
             v = self.deref_all(A[0])
+            if v[0] == 'arr':
+                if seg in ('iter', 'iter_mut'):
+                    return ('iter', IterObj([('ref', c) for c in v[1]]))
+                if seg == 'len':
+                    return ('int', len(v[1]))
+                raise Unmodelled('%s on an array' % name)
             if v[0] == 'iter' and seg == 'next':
                 x = self.iter_next(v[1], depth)
                 return mk_option(x) if x is not None else mk_option(None)
